@@ -83,6 +83,7 @@ def sim_cfg(steps):
   Extras = TRUE
   Emit = TRUE
   SharedTokenCache = FALSE
+  StaleSnapshot = FALSE
 SPECIFICATION Spec
 INVARIANT EmitCase
 CHECK_DEADLOCK FALSE
@@ -336,6 +337,9 @@ class World:
             if op == "drop":
                 del self.h[h]
                 return "ok", None, "ok"
+            if op.startswith("bad"):       # a text that is not a single item of the interpretation (ev["bt"])
+                real = op[3:]
+                return B.call(lst, real, ev["bt"] if real == "append" else ev.get("vt"), ev["bt"], ev.get("i", 0)), None, "ok"
             return B.call(lst, op, ev.get("vt"), ev.get("wt"), ev.get("i", 0), ev.get("idiom", 0), x["key"][1]), None, "ok"
         except core.MachineryError:
             raise
@@ -394,9 +398,19 @@ def run_multi_case(ctx, case, mconc, rng_idiom=0):
             ev["vt"] = w.text_of(key, e["v"])
         if e["w"]:
             ev["wt"] = w.text_of(key, e["w"])
+        if e["op"].startswith("bad"):
+            import random
+            brng = random.Random("%s/%d/%d" % (json.dumps(case["hist"][0], sort_keys=True), k, rng_idiom))
+            c = mconc.fmap[w.h[e["h"]]["key"]][1] if e["h"] in w.h else None
+            ev["bt"] = base().bad_value(brng, e["m"], list(c.word.values()) if c else [])
         w.pre(ev)
         keys = {h: x["key"] for h, x in w.h.items()}
         res, got, _ = w.do(ev)
+        if e["op"].startswith("bad"):
+            if res == "ok":       # accepted: what the list is now is unspecified -- the walk ends here
+                ctx.drift("multi: %s(%r) accepted on a %s list" % (e["op"][3:], ev["bt"], e["m"]))
+                return None
+            res = e["res"]        # refused by SOME exception (ListViewMulti!Bad1); the list must not have moved (below)
         where = "call %d %s(h=%s %s/%s%s)" % (k + 1, e["op"], e["h"], e["f"], e["m"],
                                             "".join(" %r" % ev[x] for x in ("vt", "wt") if x in ev) + (" i=%d" % e["i"] if e["i"] else ""))
         if res != e["res"] and not (e["op"] == "nl" and not res.startswith("EXC")):
@@ -452,6 +466,7 @@ def record_multi(rng, nevents, script=None):
         return rng.choice(words)
 
     k = 0
+    step = None
     while (k < nevents) if plan is None else (k < len(plan)):
         if plan is not None:
             ev = dict(plan[k])
@@ -466,6 +481,7 @@ def record_multi(rng, nevents, script=None):
                 choices += ["append"] * 3 + ["remove"] * 2 + ["replace", "refset", "refremove", "hold", "hold", "nl", "cmt",
                                                                "reformat", "leave", "leave", "leave", "sep", "noreformat",
                                                                "vfmt", "vfmtf", "abort"]
+                choices += ["badappend", "badappend", "badreplace", "badrefset"]
                 if any(state[h]["held"] for h in inb):
                     choices += ["heldget", "heldset", "heldset", "heldremove"] * 2
             if [h for h in live if not state[h]["inb"]]:
@@ -473,7 +489,40 @@ def record_multi(rng, nevents, script=None):
             choices += ["read"]
             op = rng.choice(choices)
             ev = {"op": op, "h": 0, "d": 0, "f": "", "m": "", "i": 0, "idiom": rng.randrange(56)}
-            if op in ("open", "read"):
+            # a round that CANCELS earlier rounds of one list object: the object is entered again and edited back to
+            # a content it held before (when it was made / when it was left), other handles' calls may come in between
+            undoing = [h for h in live if state[h].get("undo") is not None]
+            step = None
+            directed = False
+            if undoing and rng.random() < 0.75:
+                directed = True
+                h = rng.choice(undoing)
+                st = state[h]
+                st["undo_left"] -= 1
+                if not st["inb"]:
+                    op = "reenter"
+                else:
+                    step = B.undo_step(rng, w.shows().get(h, []), st["undo"]) if st["undo_left"] > 0 else None
+                    if step is None:
+                        op = "leave"
+                        st["undo"] = None
+                    else:
+                        op = step["op"]
+                ev["op"] = op
+                ev["h"] = h
+            if step is not None:
+                key = state[h]["key"]
+                ev.update(f=key[0], m=key[1], d=state[h]["d"], i=step["i"])
+                if step["op"] == "append":
+                    ev["vt"] = step["v"]
+                elif step["v"] is not None:
+                    ev["vt"] = step["v"]
+                if step["w"] is not None:
+                    ev["wt"] = step["w"]
+            elif directed:
+                key = state[ev["h"]]["key"]
+                ev.update(f=key[0], m=key[1], d=state[ev["h"]]["d"])
+            elif op in ("open", "read"):
                 # prefer a field somebody already has open: aliasing needs company
                 busy = [state[h]["key"] for h in live]
                 cands = [x for x in avail if x[0] not in dead_fields]
@@ -494,12 +543,23 @@ def record_multi(rng, nevents, script=None):
             else:
                 ev["h"] = rng.choice(inb)
             h = ev["h"]
-            if h and state.get(h) and op not in ("open",):
+            if h and state.get(h) and op not in ("open",) and not directed:
                 key = state[h]["key"]
                 ev.update(f=key[0], m=key[1], d=state[h]["d"])
                 n = state[h]["n"]
-                now = w.shows().get(h, []) if op in ("remove", "replace") else []
-                if op == "append":
+                now = w.shows().get(h, []) if op in ("remove", "replace", "badreplace") else []
+                if op.startswith("bad"):
+                    # the same calls with a text that is not a single item: refused, then the history carries on
+                    ev["bt"] = B.bad_value(rng, key[1], list(now) + list(mconc.fmap[key][1].word.values()))
+                    if op == "badreplace":
+                        if not now:
+                            continue
+                        ev["vt"] = rng.choice(now)
+                    elif op == "badrefset":
+                        if n == 0:
+                            continue
+                        ev["i"] = rng.randint(1, n)
+                elif op == "append":
                     ev["vt"] = pool_word(key)
                 elif op in ("remove", "replace"):
                     ev["vt"] = rng.choice(now) if now and rng.random() < 0.9 else mconc.fmap[key][1].word[B.ABSENT]
@@ -521,6 +581,8 @@ def record_multi(rng, nevents, script=None):
                 w.register(key, ev[x])
         w.pre(ev)
         res, got, readable = w.do(ev)
+        if ev["op"].startswith("bad") and res == "ok":
+            break             # accepted: what the list is now is unspecified -- the execution is validated up to here
         shows = w.shows()
         doc = w.doc_check(ev)
         e = {"op": ev["op"], "h": ev["h"], "d": ev["d"], "f": ev["f"], "m": ev["m"], "i": ev["i"],
@@ -537,16 +599,26 @@ def record_multi(rng, nevents, script=None):
         k += 1
         # bookkeeping for the generator only
         h = ev["h"]
-        if res.startswith("EXC") or doc != "ok":
+        if (res.startswith("EXC") and not ev["op"].startswith("bad")) or doc != "ok":
             break
+        if plan is None and step is not None and res != "ok":
+            state[h]["undo"] = None          # (the step was refused: e.g. a value only the parser can produce)
         if ev["op"] == "open":
-            state[h] = {"inb": True, "key": key, "d": ev["d"], "n": len(shows.get(h, [])), "held": 0}
+            state[h] = {"inb": True, "key": key, "d": ev["d"], "n": len(shows.get(h, [])), "held": 0,
+                        "snaps": [list(shows.get(h, []))], "undo": None, "undo_left": 0}
         elif ev["op"] == "drop":
             state[h] = None
         elif ev["op"] == "abort":
             state[h]["inb"] = False
         elif ev["op"] == "leave":
             state[h]["inb"] = False
+            if plan is None and res == "ok":
+                cur_list = list(shows.get(h, []))
+                older = [x for x in state[h]["snaps"] if x != cur_list]
+                state[h]["snaps"].append(cur_list)
+                if older and state[h]["undo"] is None and rng.random() < 0.5:
+                    state[h]["undo"] = rng.choice(older[:1] * 3 + older)
+                    state[h]["undo_left"] = len(cur_list) + len(state[h]["undo"]) + 4
             # a fresh read right after leaving (what the document holds now)
             rd = {"op": "read", "h": 0, "d": ev["d"], "f": ev["f"], "m": ev["m"], "i": 0, "idiom": ev.get("idiom", 0) + 3}
             if plan is None:
